@@ -207,7 +207,25 @@ pub fn finish(
     let mut known_hits = 0;
     let mut not_reproduced: Vec<String> = Vec::new();
     let mut lines = Vec::new();
+    let by_sig: BTreeMap<String, Violation> = by_sig
+        .into_iter()
+        .map(|(k, mut v)| {
+            if v.property.is_empty() {
+                v.property = meta.property.to_string();
+            }
+            if v.case.is_null() {
+                if let Some((sh, run)) = v.origin {
+                    v.case = history(sh, run).unwrap_or(Value::Null);
+                }
+            }
+            (k, v)
+        })
+        .collect();
     for (sig, v) in &by_sig {
+        if v.case.is_null() {
+            not_reproduced.push(format!("{} ({}): the scenario could not be regenerated", v.clause, v.detail));
+            continue;
+        }
         let replay = json!({
             "property": v.property, "clause": v.clause, "signature": v.signature,
             "detail": v.detail,
@@ -382,6 +400,99 @@ pub fn finish(
     }
 }
 
+/// Called by every check at the start of scenario `run` of its shard: leaves a marker the parent
+/// can read if this child has to be killed (a scenario that never terminates).
+pub fn progress(shard: usize, run: usize) {
+    if let Ok(p) = std::env::var("OPWSIM_CHILD_PROGRESS") {
+        let _ = std::fs::write(&p, format!("{shard} {run}"));
+        let _ = std::fs::remove_file(format!("{p}.case"));
+    }
+}
+
+/// Called right before every simulated execution of a shard with the explicit description of
+/// what is about to run: if the execution never comes back, this is the replay description.
+pub fn progress_case(case: impl FnOnce() -> Value) {
+    if std::env::var("OPWSIM_SLOW_LOG").is_ok() {
+        // debugging aid: wall-clock time between consecutive executions of this process
+        static LAST: std::sync::Mutex<Option<std::time::Instant>> = std::sync::Mutex::new(None);
+        let mut l = LAST.lock().unwrap();
+        if let Some(t) = *l {
+            if t.elapsed().as_secs() >= 2 {
+                eprintln!("SLOW: {:.1}s since the previous execution started", t.elapsed().as_secs_f64());
+            }
+        }
+        *l = Some(std::time::Instant::now());
+    }
+    if let Ok(p) = std::env::var("OPWSIM_CHILD_PROGRESS") {
+        let _ = std::fs::write(format!("{p}.case"), serde_json::to_string(&case()).unwrap_or_default());
+    }
+}
+
+fn wait_with_timeout(child: &mut std::process::Child, secs: u64) -> Option<std::process::ExitStatus> {
+    let start = std::time::Instant::now();
+    loop {
+        match child.try_wait() {
+            Ok(Some(st)) => return Some(st),
+            Ok(None) => {
+                if start.elapsed().as_secs() >= secs {
+                    let _ = child.kill();
+                    let _ = child.wait();
+                    return None;
+                }
+                std::thread::sleep(std::time::Duration::from_millis(20));
+            }
+            Err(_) => return None,
+        }
+    }
+}
+
+/// Wait for a shard child. The child is considered hung when its progress files (scenario marker
+/// and the explicit case about to be executed) have not been rewritten for `stall_secs`: a limit
+/// on ONE execution plus its judging, not on the shard, so load and tier size do not matter.
+/// Returns the exit status (None = killed) and the longest gap between progress updates seen.
+fn wait_with_progress(child: &mut std::process::Child, files: &[std::path::PathBuf], stall_secs: u64) -> (Option<std::process::ExitStatus>, u64) {
+    let mut last_change = std::time::Instant::now();
+    let mut last_seen: Vec<Option<std::time::SystemTime>> = vec![None; files.len()];
+    let mut max_gap_ms = 0u64;
+    let mut polls = 0u64;
+    loop {
+        match child.try_wait() {
+            Ok(Some(st)) => return (Some(st), max_gap_ms),
+            Ok(None) => {
+                polls += 1;
+                if polls % 10 == 0 {
+                    let now: Vec<Option<std::time::SystemTime>> =
+                        files.iter().map(|f| std::fs::metadata(f).ok().and_then(|m| m.modified().ok())).collect();
+                    if now != last_seen {
+                        last_seen = now;
+                        last_change = std::time::Instant::now();
+                    }
+                    let gap = last_change.elapsed();
+                    max_gap_ms = max_gap_ms.max(gap.as_millis() as u64);
+                    if gap.as_secs() >= stall_secs {
+                        let _ = child.kill();
+                        let _ = child.wait();
+                        return (None, max_gap_ms);
+                    }
+                }
+                std::thread::sleep(std::time::Duration::from_millis(20));
+            }
+            Err(_) => return (None, max_gap_ms),
+        }
+    }
+}
+
+/// Wall-clock seconds without any progress (no new scenario, no new execution) after which a
+/// shard child is declared hung.
+pub fn stall_timeout_s() -> u64 {
+    std::env::var("OPWSIM_STALL_TIMEOUT_S").ok().and_then(|s| s.parse().ok()).unwrap_or(600)
+}
+
+pub fn case_timeout_s(n_cases: usize) -> u64 {
+    let base: u64 = std::env::var("OPWSIM_CASE_TIMEOUT_S").ok().and_then(|s| s.parse().ok()).unwrap_or(120);
+    base + 30 * n_cases as u64
+}
+
 /// Judge a list of cases, in order, in a fresh process; returns the failing clauses of the LAST one.
 pub fn judge_in_fresh_process(input: &Value) -> Vec<(String, String)> {
     let dir = verif_root().join("sim/target/scratch");
@@ -394,20 +505,29 @@ pub fn judge_in_fresh_process(input: &Value) -> Vec<(String, String)> {
         return vec![("harness:cannot-write".into(), inp.display().to_string())];
     }
     let exe = std::env::current_exe().expect("current_exe");
-    let status = std::process::Command::new(exe)
+    let n_cases = input["cases"].as_array().map(|a| a.len()).unwrap_or(1);
+    let spawned = std::process::Command::new(exe)
         .arg("__judge")
         .arg(&inp)
         .arg(&out)
         .env_remove("OPWSIM_REPORT_FD")
         .env_remove("OPWSIM_CHILD_SHARD")
+        .env_remove("OPWSIM_CHILD_PROGRESS")
         .stdout(std::process::Stdio::null())
         .stderr(std::process::Stdio::null())
-        .status();
-    let res = match status {
-        Ok(_) => std::fs::read_to_string(&out)
-            .ok()
-            .and_then(|s| serde_json::from_str::<Vec<(String, String)>>(&s).ok())
-            .unwrap_or_else(|| vec![("harness:judge-process-failed".into(), String::new())]),
+        .spawn();
+    let res = match spawned {
+        Ok(mut child) => match wait_with_timeout(&mut child, case_timeout_s(n_cases)) {
+            Some(_) => std::fs::read_to_string(&out)
+                .ok()
+                .and_then(|s| serde_json::from_str::<Vec<(String, String)>>(&s).ok())
+                .unwrap_or_else(|| vec![("harness:judge-process-failed".into(), String::new())]),
+            // the case (or its history) does not come back: that IS the observation
+            None => vec![(
+                "t:no-termination".into(),
+                format!("the execution did not terminate within {} s of wall-clock time in a fresh process (killed)", case_timeout_s(n_cases)),
+            )],
+        },
         Err(e) => vec![("harness:cannot-spawn".into(), e.to_string())],
     };
     let _ = std::fs::remove_file(&inp);
@@ -458,6 +578,7 @@ where
     let args: Vec<String> = std::env::args().skip(1).collect();
     let next = std::sync::atomic::AtomicUsize::new(0);
     let results: std::sync::Mutex<Vec<(usize, Tally)>> = std::sync::Mutex::new(Vec::new());
+    let max_gap = std::sync::atomic::AtomicU64::new(0);
     let workers = jobs().min(n.max(1));
     std::thread::scope(|s| {
         for _ in 0..workers {
@@ -468,15 +589,54 @@ where
                 }
                 let out = dir.join(format!("tally-{}-{i}.json", std::process::id()));
                 let err = dir.join(format!("tally-{}-{i}.stderr", std::process::id()));
-                let status = std::process::Command::new(&exe)
+                let prog = dir.join(format!("tally-{}-{i}.progress", std::process::id()));
+                let spawned = std::process::Command::new(&exe)
                     .args(&args)
                     .env("OPWSIM_CHILD_SHARD", i.to_string())
                     .env("OPWSIM_CHILD_OUT", &out)
+                    .env("OPWSIM_CHILD_PROGRESS", &prog)
                     .env("VERIF_JOBS", "1")
                     .env_remove("OPWSIM_REPORT_FD")
                     .stdout(std::process::Stdio::null())
                     .stderr(std::fs::File::create(&err).map(std::process::Stdio::from).unwrap_or(std::process::Stdio::null()))
-                    .status();
+                    .spawn();
+                let status: std::io::Result<std::process::ExitStatus> = match spawned {
+                    Ok(mut child) => match {
+                        let case_file = std::path::PathBuf::from(format!("{}.case", prog.display()));
+                        let (st, gap) = wait_with_progress(&mut child, &[prog.clone(), case_file], stall_timeout_s());
+                        max_gap.fetch_max(gap, std::sync::atomic::Ordering::SeqCst);
+                        st
+                    } {
+                        Some(st) => Ok(st),
+                        None => {
+                            // the shard hangs: report the scenario it was in as a (to be confirmed)
+                            // non-termination violation; the rest of the shard is lost
+                            let at = std::fs::read_to_string(&prog).unwrap_or_default();
+                            let mut it = at.split_whitespace().filter_map(|x| x.parse::<usize>().ok());
+                            let (sh, run) = (it.next().unwrap_or(i), it.next().unwrap_or(0));
+                            let stuck: Value = std::fs::read_to_string(format!("{}.case", prog.display()))
+                                .ok()
+                                .and_then(|s| serde_json::from_str(&s).ok())
+                                .unwrap_or(Value::Null);
+                            let mut t = Tally::default();
+                            t.violations.push(Violation {
+                                property: String::new(),
+                                clause: "t:no-termination".into(),
+                                signature: "no-termination".into(),
+                                detail: format!("shard {sh}, scenario {run}: one simulated execution (or its judging) made no progress for {} s of wall-clock time (child process killed)", stall_timeout_s()),
+                                case: stuck,
+                                origin: Some((sh, run)),
+                            });
+                            let _ = std::fs::remove_file(format!("{}.case", prog.display()));
+                            let _ = std::fs::remove_file(&prog);
+                            let _ = std::fs::remove_file(&err);
+                            results.lock().unwrap().push((i, t));
+                            continue;
+                        }
+                    },
+                    Err(e) => Err(e),
+                };
+                let _ = std::fs::remove_file(&prog);
                 let t = match (status, std::fs::read_to_string(&out)) {
                     (Ok(st), Ok(text)) if st.success() => match serde_json::from_str::<TallyWire>(&text) {
                         Ok(w) => Tally::from_wire(w),
@@ -506,5 +666,8 @@ where
     for (_, t) in all {
         total.merge(t);
     }
+    // measured basis for the stall limit: longest time any shard went without a progress update
+    *total.counters.entry("watchdog_longest_gap_between_progress_updates_ms".into()).or_insert(0) = max_gap.load(std::sync::atomic::Ordering::SeqCst);
+    *total.counters.entry("watchdog_stall_limit_ms".into()).or_insert(0) = stall_timeout_s() * 1000;
     total
 }
